@@ -57,13 +57,21 @@ impl SocketSend for ReqSocket {
                     })
                 }
             };
-            if let Some(mut peer) = self.backend.peers.get_async(&next_peer_id).await {
-                self.backend.round_robin.push(next_peer_id.clone());
-                message.push_front(Bytes::new());
-                peer.send_queue.send(Message::Message(message)).await?;
-                self.current_request = Some(next_peer_id);
-                return Ok(());
+            let send_result = match self.backend.peers.get_async(&next_peer_id).await {
+                Some(mut peer) => {
+                    self.backend.round_robin.push(next_peer_id.clone());
+                    message.push_front(Bytes::new());
+                    peer.send_queue.send(Message::Message(message)).await
+                }
+                None => continue,
+            };
+            if send_result.is_err() {
+                // The connection has failed: forget the peer, as the round-robin senders do.
+                self.backend.peer_disconnected(&next_peer_id);
             }
+            send_result?;
+            self.current_request = Some(next_peer_id);
+            return Ok(());
         }
     }
 }
@@ -75,9 +83,16 @@ impl SocketRecv for ReqSocket {
         // dropping this future leaves the request outstanding.
         match self.current_request.clone() {
             Some(peer_id) => {
-                if let Some(mut peer) = self.backend.peers.get_async(&peer_id).await {
-                    let reply = peer.recv_queue.next().await;
+                let reply = match self.backend.peers.get_async(&peer_id).await {
+                    Some(mut peer) => Some(peer.recv_queue.next().await),
+                    None => None,
+                };
+                if let Some(reply) = reply {
                     self.current_request = None;
+                    if !matches!(reply, Some(Ok(_))) {
+                        // The connection has ended or failed: forget the peer.
+                        self.backend.peer_disconnected(&peer_id);
+                    }
                     match reply {
                         Some(Ok(Message::Message(mut m))) => {
                             if m.len() < 2 {
